@@ -201,8 +201,16 @@ func seq(ctx context.Context, w *run.Worker, c *run.Case) {
 				size = r.Range(0, block/2)
 			}
 			data := gen.UniqueBlob(uint64(c.Index)<<20|uint64(w.Index)<<44, uint64(id), size)
-			o := &object{data: data, uploaders: map[string]bool{}}
-			objs = append(objs, o)
+			var o *object
+			for _, e := range objs { // tiny contents (e.g. the empty blob) can coincide: same object
+				if string(e.data) == string(data) {
+					o = e
+				}
+			}
+			if o == nil {
+				o = &object{data: data, uploaders: map[string]bool{}}
+				objs = append(objs, o)
+			}
 			d := gen.SHA256Digest(j, data)
 			u := &asm.Upload{Data: data, Chunks: r.Chunking(len(data), true)}
 			err := s.BA.Put(ctx, d, u.CASBuffer(d))
